@@ -38,7 +38,7 @@ func main() {
 		childMain(os.Args[2])
 		return
 	}
-	Main("C12", checkC12, GenBufferConsts, sysgen.Gen, stateGen)
+	Main("C12", checkC12, stateGen, GenBufferConsts, sysgen.Gen)
 }
 
 // ---------------------------------------------------------------- what a child does
